@@ -1401,7 +1401,9 @@ func (fx *FnExec) privateAllocs() map[*ssa.Alloc]bool {
 	return out
 }
 
-func (fx *FnExec) escapes(a *ssa.Alloc) bool {
+// leakers returns the instructions through which the object allocated by a may become reachable
+// for code outside this activation (escapes); alwaysLeaks is set when nothing can be said.
+func (fx *FnExec) leakers(a *ssa.Alloc) (out []ssa.Instruction, alwaysLeaks bool) {
 	aliases := map[ssa.Value]bool{a: true}
 	cells := map[*ssa.Alloc]bool{}
 	for changed := true; changed; {
@@ -1432,13 +1434,14 @@ func (fx *FnExec) escapes(a *ssa.Alloc) bool {
 	for v := range aliases {
 		refs := v.Referrers()
 		if refs == nil {
-			return true
+			return nil, true
 		}
 		for _, r := range *refs {
 			switch x := r.(type) {
 			case *ssa.FieldAddr:
 				if x.X != v {
-					return true
+					out = append(out, r)
+					continue
 				}
 				// address of a field taken: conservative unless only used for load/store
 				if fr := x.Referrers(); fr != nil {
@@ -1446,12 +1449,12 @@ func (fx *FnExec) escapes(a *ssa.Alloc) bool {
 						switch y := u.(type) {
 						case *ssa.Store:
 							if y.Addr != x {
-								return true
+								out = append(out, u)
 							}
 						case *ssa.UnOp:
 						case *ssa.DebugRef:
 						default:
-							return true
+							out = append(out, u)
 						}
 					}
 				}
@@ -1459,29 +1462,89 @@ func (fx *FnExec) escapes(a *ssa.Alloc) bool {
 				if x.Val == v {
 					c, ok := x.Addr.(*ssa.Alloc)
 					if !ok || c.Heap || !cells[c] {
-						return true
+						out = append(out, r)
 					}
 				}
 			case *ssa.UnOp, *ssa.DebugRef:
 			case ssa.CallInstruction:
 				cc := x.Common()
 				if cc.IsInvoke() {
-					return true
+					out = append(out, r)
+					continue
 				}
 				callee, ok := cc.Value.(*ssa.Function)
 				if !ok {
-					return true
+					out = append(out, r)
+					continue
 				}
 				if con := fx.e.cons[callee]; con == nil || con.Inline {
-					return true
+					out = append(out, r)
 				}
 			case *ssa.BinOp: // comparison with nil
 			default:
-				return true
+				out = append(out, r)
 			}
 		}
 	}
-	return false
+	return out, false
+}
+
+func (fx *FnExec) escapes(a *ssa.Alloc) bool {
+	l, always := fx.leakers(a)
+	return always || len(l) > 0
+}
+
+// notYetLeaked: struct objects allocated earlier in the block of the instruction being executed
+// that no instruction executed so far has made reachable from outside (e.g. `&T{F: g()}`: the
+// object exists while g runs, but g cannot reach it).
+func (fx *FnExec) notYetLeaked() []*Term {
+	cur := fx.curInstr
+	if cur == nil || cur.Block() == nil {
+		return nil
+	}
+	blk := cur.Block()
+	idx := map[ssa.Instruction]int{}
+	for i, ins := range blk.Instrs {
+		idx[ins] = i
+	}
+	ci, ok := idx[cur]
+	if !ok {
+		return nil
+	}
+	var out []*Term
+	for i, ins := range blk.Instrs {
+		if i >= ci {
+			break
+		}
+		a, ok := ins.(*ssa.Alloc)
+		if !ok || !a.Heap {
+			continue
+		}
+		if _, isS := a.Type().(*types.Pointer).Elem().Underlying().(*types.Struct); !isS {
+			continue
+		}
+		r, ok := fx.vals[a]
+		if !ok {
+			continue
+		}
+		ls, always := fx.leakers(a)
+		if always {
+			continue
+		}
+		leaked := false
+		for _, l := range ls {
+			if l.Block() != blk {
+				continue // runs after this block completes
+			}
+			if j, ok := idx[l]; ok && j <= ci {
+				leaked = true
+			}
+		}
+		if !leaked {
+			out = append(out, r)
+		}
+	}
+	return out
 }
 
 // opaqueCall: nothing is known about the callee: every heap location may
@@ -1562,12 +1625,25 @@ func (fx *FnExec) observerHavoc(st *State) {
 			fx.trusted("assumption (keeps): calls without a contract made by " + r.fn.Name() + " do not change the ghost state " + g)
 		}
 	}
+	// objects private to the active activations (allocated here, not yet escaped) cannot be reached by the callee
+	var privs []*Term
+	for f := fx; f != nil; f = f.parent {
+		for _, r := range f.privRefs {
+			privs = append(privs, r)
+		}
+	}
+	privs = append(privs, fx.notYetLeaked()...)
+	sort.Slice(privs, func(i, j int) bool { return privs[i].String() < privs[j].String() })
 	for _, k := range names {
 		old := st.heap[k]
 		isID := strings.HasSuffix(k, "ID")
 		switch {
 		case idFieldRe.MatchString(k) && (writesIDs || !isID):
-			st.heap[k] = fx.c.Fresh("obs_"+k, old.S)
+			nv := fx.c.Fresh("obs_"+k, old.S)
+			for _, p := range privs {
+				nv = Store(nv, p, Select(old, p))
+			}
+			st.heap[k] = nv
 		case strings.HasPrefix(k, "G_") && !keep[k] && !strings.HasPrefix(k, "G_visited") && writesIDs:
 			st.heap[k] = fx.c.Fresh("obs_"+k, old.S)
 		}
@@ -1624,6 +1700,7 @@ func (fx *FnExec) havocHeap(st *State) {
 			privs = append(privs, r)
 		}
 	}
+	privs = append(privs, fx.notYetLeaked()...)
 	sort.Slice(privs, func(i, j int) bool { return privs[i].String() < privs[j].String() })
 	fx.c.nfresh++
 	epoch := fmt.Sprintf("e%d", fx.c.nfresh)
